@@ -301,15 +301,21 @@ def iter : DRow → Res (List Val)
   | label r _ _ => iter r
   | dropOne r ind => match iter r with | .ok xs => .ok (xs.take ind ++ xs.drop (ind + 1)) | .error e => .error e
 
-/-- the label wrapper reached through `__getattr__` forwarding (`feats`, `label`, `tipe`) -/
+/-- `feats` / `label` / `labeled` are properties of LabelDense only: `__getattr__` does not pass them on through a wrapper
+(fixes/C13-stale-feats-label.diff), so a label made stale by a later stage cannot be read -/
 def labelOf : DRow → Option (DRow × Nat × Option String)
+  | label r i t => some (r, i, t)
+  | _ => none
+
+/-- `tipe` is still forwarded by `__getattr__` (a later stage does not change it) -/
+def tipeOf : DRow → Option (Option String)
   | plain _ => none
   | lazy _ _ _ _ => none
-  | head r _ => labelOf r
-  | encode r _ => labelOf r
-  | keep r _ _ _ _ _ => labelOf r
-  | label r i t => some (r, i, t)
-  | dropOne r _ => labelOf r
+  | head r _ => tipeOf r
+  | encode r _ => tipeOf r
+  | keep r _ _ _ _ _ => tipeOf r
+  | label _ _ t => some t
+  | dropOne r _ => tipeOf r
 
 def feats (r : DRow) : Res DRow :=
   match labelOf r with
@@ -322,8 +328,8 @@ def labelVal (r : DRow) : Res Val :=
   | none => .error .attrError
 
 def tipe (r : DRow) : Res (Option String) :=
-  match labelOf r with
-  | some (_, _, t) => .ok t
+  match tipeOf r with
+  | some t => .ok t
   | none => .error .attrError
 
 /-- `Dense_.__eq__(self, o)` for a list-like `o`: `len(self)==len(o) and all(map(eq,self,o))`, any exception → False -/
@@ -519,13 +525,18 @@ def items : SRow → Res Dict
 /-- `dict(pairs)` -/
 def toDict (its : Dict) : Dict := its.foldl (fun d p => dset d p.1 p.2) []
 
+/-- `feats` / `label` / `labeled` are properties of LabelSparse only (not forwarded, fixes/C13-stale-feats-label.diff) -/
 def labelOf : SRow → Option (SRow × Key × Option String)
+  | label r k t => some (r, k, t)
+  | _ => none
+
+def tipeOf : SRow → Option (Option String)
   | plain _ => none
   | lazy _ _ _ _ _ _ => none
-  | head r _ _ => labelOf r
-  | encode r _ _ => labelOf r
-  | drop r _ => labelOf r
-  | label r k t => some (r, k, t)
+  | head r _ _ => tipeOf r
+  | encode r _ _ => tipeOf r
+  | drop r _ => tipeOf r
+  | label _ _ t => some t
 
 def feats (r : SRow) : Res SRow :=
   match labelOf r with
@@ -538,8 +549,8 @@ def labelVal (r : SRow) : Res Val :=
   | none => .error .attrError
 
 def tipe (r : SRow) : Res (Option String) :=
-  match labelOf r with
-  | some (_, _, t) => .ok t
+  match tipeOf r with
+  | some t => .ok t
   | none => .error .attrError
 
 /-- python `dict == dict` on association lists with distinct keys -/
@@ -1098,6 +1109,7 @@ inductive Other
 inductive Acc
   | pos (i : Nat) | name (k : Key) | iter | len | keys | items | copy | headers
   | eq (o : Other) | label | tipe | feats (sub : Acc)
+  | clone (sub : Acc)      -- copy.copy / copy.deepcopy / pickle round trip of the row at this point, then `sub` on the copy
   deriving Repr
 
 inductive Obs
@@ -1125,6 +1137,7 @@ def obsD (r : DRow) : Acc → Obs
   | .label => ofRes .val r.labelVal
   | .tipe => ofRes .ostr r.tipe
   | .feats sub => match r.feats with | .ok f => obsD f sub | .error _ => .err
+  | .clone sub => obsD r sub          -- a copy of a row is the row (same wrapper tree, same base data, same load-once cell state)
 
 def obsS (r : SRow) : Acc → Obs
   | .pos _ => .undef
@@ -1140,6 +1153,7 @@ def obsS (r : SRow) : Acc → Obs
   | .label => ofRes .val r.labelVal
   | .tipe => ofRes .ostr r.tipe
   | .feats sub => match r.feats with | .ok f => obsS f sub | .error _ => .err
+  | .clone sub => obsS r sub
 
 /-- what the eager row gives (`undef` = the eager row defines no value for this access) -/
 def eagerObsD (e : EagerD) : Acc → Obs
@@ -1156,6 +1170,7 @@ def eagerObsD (e : EagerD) : Acc → Obs
   | .label => match e.labelVal with | some v => .val v | none => .undef
   | .tipe => match e.lab with | some (_, t) => .ostr t | none => .undef
   | .feats sub => match e.feats with | some f => eagerObsD f sub | none => .undef
+  | .clone sub => eagerObsD e sub     -- copying a plain list changes nothing
 
 def eagerObsS (e : EagerS) : Acc → Obs
   | .pos _ => .undef
@@ -1171,6 +1186,13 @@ def eagerObsS (e : EagerS) : Acc → Obs
   | .label => match e.labelVal with | some v => .val v | none => .undef
   | .tipe => match e.lab with | some (_, t) => .ostr t | none => .undef
   | .feats sub => match e.feats with | some f => eagerObsS f sub | none => .undef
+  | .clone sub => eagerObsS e sub
+
+/-- the access without its copy steps -/
+def Acc.strip : Acc → Acc
+  | .feats sub => .feats sub.strip
+  | .clone sub => sub.strip
+  | a => a
 
 /-! ## histories of accesses on one row object -/
 
